@@ -513,8 +513,20 @@ impl<'a> Sim<'a> {
 
         // Tick the nodes that are not actively running (i.e., crashed) to ensure their clock keeps up
         // with the rest of the simulation when they are restarted (bounced).
-        for (&addr, _rt) in stopped {
+        for (&addr, rt) in stopped {
             let mut world = self.world.borrow_mut();
+            if rt.is_crashed() {
+                // A crashed host holds no sockets. Hand matured messages to
+                // its empty tables so peers get a reset or a refusal now
+                // rather than when (if ever) the host is bounced.
+                let World {
+                    rng,
+                    topology,
+                    hosts,
+                    ..
+                } = world.deref_mut();
+                topology.deliver_messages(rng, hosts.get_mut(&addr).expect("missing host"));
+            }
             world.tick(addr, tick);
         }
 
